@@ -146,6 +146,8 @@ static inline void split(uint64_t v, F f)
     if constexpr (MAX == 0) { at_const<0, WIT>(f); }
     else { if (v == MAX) at_const<MAX, WIT>(f); else split<MAX - 1, WIT>(v, f); }
 }
+// one property for "some history ran to its end" (a noinline function: a single assertion however often the leaf is inlined)
+extern "C" __attribute__((noinline)) void lg_history_done() { vf_witness("a complete history was executed"); }
 // the same without the per-value witnesses (histories: thousands of paths, each witness costs a counterexample trace);
 // the history leaves carry one witness instead
 template <unsigned MAX, typename F>
